@@ -703,6 +703,188 @@ theorem strOf_inj (syms : List Bytes) (hnd : syms.Nodup) (i j : Nat) (hi : i < s
     rw [List.getElem?_eq_getElem hi, List.getElem?_eq_getElem hj, h]
   exact (List.getElem?_inj hi hnd).mp this
 
+/-! ### label values and label names of the reader's table -/
+
+/-- names and values in the reader's table are those of the postings lists, in order -/
+theorem tableOf_keys (crc : Crc) (syms : List Bytes) (series : List Series) :
+    (tableOf crc syms series).map (fun e => (e.name, e.value)) =
+      (allPLists syms series (writeIndex crc syms series).ids).map (fun p => (p.name, p.value)) := by
+  apply List.ext_getElem?
+  intro k
+  simp only [List.getElem?_map, tableOf, ppOf]
+  have hids : (writeIndex crc syms series).ids =
+      (placeSeries crc (indexHeader.length + (symbolTable crc syms).length) series).2 := rfl
+  rw [hids]
+  cases hp : (allPLists syms series (placeSeries crc (indexHeader.length + (symbolTable crc syms).length) series).2)[k]? with
+  | none =>
+    have hlen := placePostings_length crc (allPLists syms series
+      (placeSeries crc (indexHeader.length + (symbolTable crc syms).length) series).2) 0
+    have : (placePostings crc 0 (allPLists syms series
+      (placeSeries crc (indexHeader.length + (symbolTable crc syms).length) series).2)).2[k]? = none := by
+      rw [List.getElem?_eq_none_iff] at hp ⊢; omega
+    rw [this]; rfl
+  | some p =>
+    obtain ⟨e, _, _, he, hn, hv, _, _⟩ := placePostings_spec crc _ 0 k p hp
+    rw [he]
+    simp [hn, hv]
+
+theorem bytesLt_irrefl : ∀ (a : Bytes), bytesLt a a = false := by
+  intro a
+  induction a with
+  | nil => rfl
+  | cons x xs ih => simp [bytesLt, ih]
+
+theorem insertBytes_dup (x : Bytes) (ys : List Bytes) : insertBytes x (x :: ys) = x :: ys := by
+  simp [insertBytes, bytesLt_irrefl]
+
+/-- keys of the postings lists after the all-postings entry -/
+def restKeys (syms : List Bytes) (series : List Series) : List (Bytes × Bytes) :=
+  (namesOf series).flatMap fun n => (valuesOf series n).map fun v => (strOf syms n, strOf syms v)
+
+theorem allPLists_keys (syms : List Bytes) (series : List Series) (ids : List Nat) :
+    (allPLists syms series ids).map (fun p => (p.name, p.value)) = ([], []) :: restKeys syms series := by
+  unfold allPLists restKeys
+  simp only [List.map_cons, List.map_flatMap, List.map_map]
+  rfl
+
+/-- filtering the keys of sorted names by one of them keeps exactly its block -/
+theorem filter_keys (syms : List Bytes) (f : Nat → List Nat) (hnd : syms.Nodup) :
+    ∀ (names : List Nat) (n : Nat), names.Pairwise (· < ·) → (∀ m ∈ names, m < syms.length) → n ∈ names →
+    ((names.flatMap fun m => (f m).map fun v => (strOf syms m, strOf syms v)).filter
+        (fun k => decide (k.1 = strOf syms n))).map (·.2) = (f n).map (strOf syms) := by
+  intro names
+  induction names with
+  | nil => intro n _ _ h; simp at h
+  | cons m ms ih =>
+    intro n hs hv hn
+    rw [List.pairwise_cons] at hs
+    simp only [List.flatMap_cons, List.filter_append, List.map_append]
+    by_cases hmn : m = n
+    · subst hmn
+      have h1 : ((f m).map fun v => (strOf syms m, strOf syms v)).filter (fun k => decide (k.1 = strOf syms m))
+          = (f m).map fun v => (strOf syms m, strOf syms v) := by
+        rw [List.filter_eq_self]; intro a ha; simp only [List.mem_map] at ha; obtain ⟨_, _, rfl⟩ := ha; simp
+      have h2 : (ms.flatMap fun m' => (f m').map fun v => (strOf syms m', strOf syms v)).filter
+          (fun k => decide (k.1 = strOf syms m)) = [] := by
+        rw [List.filter_eq_nil_iff]
+        intro a ha
+        simp only [List.mem_flatMap, List.mem_map] at ha
+        obtain ⟨m', hm', _, _, rfl⟩ := ha
+        simp only [decide_eq_true_eq]
+        intro hc
+        have := strOf_inj syms hnd m' m (hv m' (by simp [hm'])) (hv m (by simp)) hc
+        have := hs.1 m' hm'
+        omega
+      rw [h1, h2]; simp
+    · have hn' : n ∈ ms := by simpa [Ne.symm hmn] using hn
+      have h1 : ((f m).map fun v => (strOf syms m, strOf syms v)).filter (fun k => decide (k.1 = strOf syms n)) = [] := by
+        rw [List.filter_eq_nil_iff]
+        intro a ha
+        simp only [List.mem_map] at ha
+        obtain ⟨_, _, rfl⟩ := ha
+        simp only [decide_eq_true_eq]
+        intro hc
+        exact hmn (strOf_inj syms hnd m n (hv m (by simp)) (hv n (by simp [hn'])) hc)
+      rw [h1]
+      simp only [List.map_nil, List.nil_append]
+      exact ih n hs.2 (fun m' hm' => hv m' (by simp [hm'])) hn'
+
+
+theorem mem_insertUniq_self (x : Nat) : ∀ (l : List Nat), x ∈ insertUniq x l := by
+  intro l
+  induction l with
+  | nil => simp [insertUniq]
+  | cons y ys ih =>
+    unfold insertUniq
+    split
+    · simp
+    · split
+      · rename_i h; simp [h]
+      · simp [ih]
+
+theorem mem_insertUniq_of_mem (x y : Nat) : ∀ (l : List Nat), y ∈ l → y ∈ insertUniq x l := by
+  intro l
+  induction l with
+  | nil => intro h; simp at h
+  | cons z zs ih =>
+    intro h
+    unfold insertUniq
+    split
+    · simp only [List.mem_cons] at h ⊢; exact Or.inr h
+    · split
+      · exact h
+      · simp only [List.mem_cons] at h ⊢
+        rcases h with h | h
+        · exact Or.inl h
+        · exact Or.inr (ih h)
+
+theorem mem_sortUniq_of_mem (y : Nat) : ∀ (l : List Nat), y ∈ l → y ∈ sortUniq l := by
+  intro l
+  induction l with
+  | nil => intro h; simp at h
+  | cons x xs ih =>
+    intro h
+    unfold sortUniq
+    simp only [List.foldr_cons]
+    simp only [List.mem_cons] at h
+    rcases h with h | h
+    · subst h; exact mem_insertUniq_self _ _
+    · exact mem_insertUniq_of_mem _ _ _ (ih h)
+
+/-- a name in use has at least one value -/
+theorem valuesOf_ne_nil (series : List Series) (n : Nat) (hn : n ∈ namesOf series) : valuesOf series n ≠ [] := by
+  unfold namesOf at hn
+  have := mem_sortUniq hn
+  simp only [List.mem_flatMap, List.mem_map] at this
+  obtain ⟨s, hs, p, hp, rfl⟩ := this
+  have : p.2 ∈ valuesOf series p.1 := by
+    unfold valuesOf
+    apply mem_sortUniq_of_mem
+    simp only [List.mem_flatMap, List.mem_map, List.mem_filter]
+    exact ⟨s, hs, p, ⟨hp, by simp⟩, rfl⟩
+  intro hc; rw [hc] at this; simp at this
+
+theorem insertBytes_lt_head (x : Bytes) (tail : List Bytes) (h : ∀ y ∈ tail.head?, bytesLt x y = true) :
+    insertBytes x tail = x :: tail := by
+  cases tail with
+  | nil => rfl
+  | cons y ys => simp [insertBytes, h y (by simp)]
+
+theorem foldr_const_block {α} (x : Bytes) (tail : List Bytes) (h : ∀ y ∈ tail.head?, bytesLt x y = true) :
+    ∀ (l : List α), l ≠ [] → (l.map fun _ => x).foldr insertBytes tail = x :: tail := by
+  intro l
+  induction l with
+  | nil => intro h; exact absurd rfl h
+  | cons a as ih =>
+    intro _
+    simp only [List.map_cons, List.foldr_cons]
+    cases as with
+    | nil => simp only [List.map_nil, List.foldr_nil]; exact insertBytes_lt_head x tail h
+    | cons b bs => rw [ih (by simp)]; exact insertBytes_dup x tail
+
+/-- sorted blocks of repeated names fold to the names -/
+theorem foldr_insertBytes_blocks {α} (f : Nat → Bytes) (g : Nat → List α) :
+    ∀ (names : List Nat), (names.map f).Pairwise (fun a b => bytesLt a b = true) → (∀ n ∈ names, g n ≠ []) →
+    (names.flatMap fun n => (g n).map fun _ => f n).foldr insertBytes [] = names.map f := by
+  intro names
+  induction names with
+  | nil => intro _ _; rfl
+  | cons n ns ih =>
+    intro hs hg
+    simp only [List.map_cons, List.pairwise_cons] at hs
+    simp only [List.flatMap_cons, List.foldr_append, List.map_cons]
+    rw [ih hs.2 (fun m hm => hg m (by simp [hm]))]
+    apply foldr_const_block
+    · intro y hy
+      cases hns : ns.map f with
+      | nil => rw [hns] at hy; simp at hy
+      | cons z zs =>
+        rw [hns] at hy
+        simp only [List.head?_cons, Option.mem_def, Option.some.injEq] at hy
+        subst hy
+        exact hs.1 z (by rw [hns]; simp)
+    · exact hg n (by simp)
+
 /-! ### the chunk writer -/
 
 theorem appendLast_length : ∀ (segs : List Bytes) (b : Bytes), segs ≠ [] → (appendLast segs b).length = segs.length := by
